@@ -781,7 +781,11 @@ main_driver(int argc, char** argv, Harness& h)
           if (r.status == "violation")
             {
               Result r2 = execute(h, p);
-              if (r2.status != r.status || r2.oracle != r.oracle || r2.hash != r.hash)
+              // the verdict (status + oracle class) must repeat; the event-log hash may legitimately differ when the
+              // violation is itself undefined behaviour (e.g. a corrupted container whose fate depends on heap layout)
+              if (r2.hash != r.hash)
+                r.probes["violation_hash_unstable_on_reexecution"] = 1;
+              if (r2.status != r.status || r2.oracle != r.oracle)
                 {
                   r.status = "harness_nondet";
                   r.detail = "re-execution differs: " + r.oracle + "/" + r2.oracle + " | " + r.detail + " | " + r2.detail;
